@@ -118,7 +118,8 @@ func c36Exec(t *verifh.T, c verifh.Case) {
 }
 
 var c36Roots = []string{"/", "/a", "/a/", "/a/b/c", "/a/b/c/", "", ".", "./", "a", "a/b/", "//a//b//", "/a/./b/../c/", "..", "../x/",
-	"/data/kraken+cache", "/a.b", "/a(b", "/x[1]", "/w*", "/q?", "/p|q", "/^s$", "/c\\d", "/br{2}", "/sp ace/", "/üñ", "/_manifests/tags", "/docker/registry/v2/repositories"}
+	"/data/kraken+cache", "/a.b", "/a(b", "/x[1]", "/w*", "/q?", "/p|q", "/^s$", "/c\\d", "/br{2}", "/sp ace/", "/üñ", "/_manifests/tags", "/docker/registry/v2/repositories",
+	"/r\xff", "\xc3", "/a/\xe2\x82/b", "/€/é"}
 
 var c36Repos = []string{"a", "library/ubuntu", "a/b/c", "repo-bar", "a.b_c-d/e", "x/_manifests/tags/y", "a/current/link", "docker/registry/v2/repositories/z",
 	"0", "a/repositories/b", "sha256"}
@@ -162,7 +163,8 @@ func TestVerif_C36(t *testing.T) {
 			rt("ident", root, repo)
 			tr.Count("grid_ident", 1)
 		}
-		for _, n := range []string{hexd(), strings.ToUpper(hexd()), "abc", "..a", "a..", "ab/", "xyz", "da/ta", "sha256"} {
+		for _, n := range []string{hexd(), strings.ToUpper(hexd()), "abc", "..a", "a..", "ab/", "xyz", "da/ta", "sha256",
+			"éab", "éa", "aéb", "abé", "€ab", "a€b", "\xffab", "a\xffb", "ab\xff", "\xc3ab", "\xc3\xa9\xc3\xa9", "ñ\n1"} {
 			rt("shard", root, n)
 			tr.Count("grid_shard", 1)
 		}
